@@ -58,13 +58,35 @@ PAIRS = ["cn2_r0", "r0_seeing", "cn2_seeing"]
 AXIS_FUNCS = ["coherenceTime", "isoplanaticAngle", "rytov_variance"]
 
 
+_QUICK_LADDERS = None
+
+
+def _geom(lo, hi, n):
+    return [float(lo * (hi / lo) ** (k / (n - 1.0))) for k in range(n)]
+
+
+def _setup_ladders(tier):
+    """thorough: every ladder becomes its 9 hand-picked values plus 24 geometrically spaced ones over a wider range"""
+    global _QUICK_LADDERS, R0S, CN2S, SEEINGS, HEIGHTS, WINDS, MAGS
+    if _QUICK_LADDERS is None:
+        _QUICK_LADDERS = (R0S, CN2S, SEEINGS, HEIGHTS, WINDS, MAGS)
+    R0S, CN2S, SEEINGS, HEIGHTS, WINDS, MAGS = _QUICK_LADDERS
+    if tier == "thorough":
+        R0S = R0S + _geom(0.002, 20.0, 24)
+        CN2S = CN2S + _geom(1e-17, 1e-9, 24)
+        SEEINGS = SEEINGS + _geom(0.01, 30.0, 24)
+        HEIGHTS = HEIGHTS + _geom(0.1, 90000.0, 24)
+        WINDS = WINDS + _geom(0.01, 300.0, 24)
+        MAGS = [-15.0 + 2.5 * k for k in range(21)]        # same 2.5 mag step (the factor clauses step by index)
+
+
 def _shapes(tier):
     out = []
-    top = 3 if tier == "quick" else 4
+    top = 3 if tier == "quick" else 5
     for rank in (1, 2, 3):
         out.extend(itertools.product(range(1, top + 1), repeat=rank))
     if tier == "thorough":
-        out.extend(itertools.product((1, 2), repeat=4))
+        out.extend(itertools.product((1, 2, 3), repeat=4))
     # long profiles / many profiles (sizes where a block-wise or pairwise reduction behaves differently)
     out.extend([(300,), (130, 2), (2, 130), (65, 3, 2), (2, 3, 257)])
     return out
@@ -136,6 +158,7 @@ def _band_values(band):
 def setup(tier):
     """per-band reference values, each computed in its own pristine forked process"""
     global _BAND_TABLE
+    _setup_ladders(tier)
     from mc.isolate import isolated_map
     _BAND_TABLE = dict(zip(BANDS, isolated_map(_band_values, [(b,) for b in BANDS])))
 
